@@ -32,8 +32,16 @@ def follow(ctx, rule, fn, types, extra=None):
 
     def decide(t):
         if isinstance(t, ast.BoolOp):
-            vals = [decide(v) for v in t.values]
-            return all(vals) if isinstance(t.op, ast.And) else any(vals)
+            # short-circuit, left to right: a later operand may be decidable only when the earlier ones let it be reached
+            if isinstance(t.op, ast.And):
+                for v in t.values:
+                    if not decide(v):
+                        return False
+                return True
+            for v in t.values:
+                if decide(v):
+                    return True
+            return False
         if isinstance(t, ast.UnaryOp) and isinstance(t.op, ast.Not):
             return not decide(t.operand)
         if isinstance(t, ast.Call) and isinstance(t.func, ast.Name) and t.func.id == "isinstance" and len(t.args) == 2 and isinstance(t.args[0], ast.Name) \
